@@ -3,10 +3,17 @@ from _contracts import *
 
 A = "src/state/applytx.rs"
 S = "src/state.rs"
+OUT_PROOF = """proof {
+    let opts = choose|opts: Seq<Option<(CoinID, CoinDataHeight)>>| #[trigger] filter_map_decided(__cl2, __c1@, __c2@, opts);
+    assert forall|i: int| 0 <= i < opts.len() implies created_item_ok(*tx, height, i, #[trigger] opts[i]) by {
+        assert(call_ensures(__cl2, (__c1@[i],), opts[i])); assert(*__c0@[i] == tx.outputs@[i]); assert(__c1@[i].0 == i);
+    }
+    lemma_created_from_pairs(*tx, height, opts);
+}"""
 UNIT = Unit(
     name="applychk", uses="group_core_axioms",
     prelude=["core.rs", "raw.rs", "iter.rs", "crypto.rs", "state_abs.rs", "melvm_abs.rs", "txmethods.rs"],
-    lemmas=["sums.rs", "coinsview.rs", "header.rs", "apply.rs"],
+    lemmas=["sums.rs", "coinsview.rs", "header.rs", "apply.rs", "apply_c04.rs"],
     items=[
         TypeItem(S, "struct", "UnsealedState"),
         TypeItem(S, "enum", "StateError", derive="#[derive(Clone, Copy, PartialEq, Eq, Structural)]"),
@@ -44,6 +51,13 @@ UNIT = Unit(
         Fn(A, "validate_tx_scripts", home="C04", implicit_props=("C09", "C04"), **ap_validate_tx_scripts(),
            closures=[Closure(0, "_e: DecodeError", "(r: StateError)", ensures=[C("maperr", "r is MalformedTx", "C04")]),
                      Closure(1, "v: Value", "(r: bool)", ensures=[C("truth", "r == spec_truthy(v)", "C04")])]),
+        Fn(A, "output_coins_from_tx", home="C02", implicit_props=("C09", "C02"), **ap_output_coins_from_tx(),
+           rewrites=[("ANF", "collect", 0, 4, {2: OUT_PROOF})],
+           closures=[Closure(0, "p: (usize, &CoinData)", "(r: Option<(CoinID, CoinDataHeight)>)", first_stmt="let (i, coin_data) = p;", ensures=[
+               C("item", """({ let i = p.0; let coin_data = p.1; match r { Some(p) => i < 256 ==> (p.0 == cid(*tx, i as int) && coin_data.covhash != spec_coin_destroy() && p.1.height == height && p.1.coin_data.covhash == coin_data.covhash
+                                    && p.1.coin_data.value == coin_data.value && p.1.coin_data.additional_data == coin_data.additional_data
+                                    && p.1.coin_data.denom == (if coin_data.denom == Denom::NewCustom { Denom::Custom(spec_txhash(*tx)) } else { coin_data.denom })),
+                                   None => coin_data.covhash == spec_coin_destroy() } })""", "C02")])]),
         Fn(A, "check_tx_validity", home="C04", implicit_props=("C09", "C04", "C13", "C01"), **ap_check_tx_validity(),
            rewrites=[("R4", 0)],
            closures=[Closure(0, "", "(r: Header)", ensures=[C("sealhdr", "r == spec_header(spec_seal(*this, None))", "C04")])],
